@@ -29,8 +29,15 @@ FLOORS = {"quick": {"frequency_cells": 400, "zero_prob_label_cells": 200, "joint
 
 def plan(tier, seed):
     n = 42 if tier == "quick" else 320
-    return [{"index": i, "seed": [seed, 401, i], "agents": 20000 if tier == "quick" else 200000,
-             "identical_init": i % 3 == 2, "env": {"VERIF_X64": "1"}} for i in range(n)]
+    cases = [{"index": i, "seed": [seed, 401, i], "agents": 20000 if tier == "quick" else 200000,
+              "identical_init": i % 3 == 2, "env": {"VERIF_X64": "1"}} for i in range(n)]
+    # "same seed -> identical frames" also across interpreter sessions: a few cases are run a
+    # second time in another worker process under another PYTHONHASHSEED; the digests of the
+    # seed-A frames are compared by aggregate()
+    for i in range(0, n, 7 if tier == "quick" else 16):
+        cases.append({**cases[i], "twin_of": i, "agents": 2000, "env": {"VERIF_X64": "1", "PYTHONHASHSEED": "1"}})
+        cases.append({**cases[i], "twin_of": i, "agents": 2000, "env": {"VERIF_X64": "1", "PYTHONHASHSEED": "0", "VERIF_TWIN": "b"}})
+    return cases
 
 
 def make_desc(rng, index):
@@ -281,5 +288,29 @@ def run_case(case):
     res["nontrivial"] = bool(cnt.get("frequency_cells", 0) >= 5)
     res["sample"] = {"stochastic": {n: ref.fargs[n] for n in ref.stoch}, "sizes": {v: ref.spec[v]["n"] for v in ref.spec}, "n_periods": T, "agents": N,
                      "identical_initial_states": case["identical_init"], "example_row": np.asarray(params["shocks"][ref.stoch[0][len('next_'):]]).reshape(-1, ref.spec[ref.stoch[0][len('next_'):]]["n"])[0].round(3).tolist()}
+    if "twin_of" in case:
+        import hashlib
+
+        h = hashlib.sha1()
+        for c in sorted(df.columns):
+            h.update(np.ascontiguousarray(np.asarray(df[c].values, dtype=np.float64)).tobytes())
+        res["twin"] = {"of": case["twin_of"], "digest": h.hexdigest(), "hashseed": case["env"].get("PYTHONHASHSEED")}
     res["status"] = "violated" if res["violations"] else "held"
     return res
+
+
+def aggregate(results, tier):
+    groups = {}
+    for r in results:
+        t = r.get("twin")
+        if t:
+            groups.setdefault(t["of"], []).append((t["hashseed"], t["digest"], r["id"]))
+    viol, n = [], 0
+    for of, lst in groups.items():
+        if len({h for h, _, _ in lst}) >= 2:
+            n += 1
+            if len({d for _, d, _ in lst}) > 1:
+                viol.append({"case_id": lst[0][2], "key": "same_seed_differs_across_sessions",
+                             "what": f"model {of}: the same simulate call (same params, initial states, seed) gives different frames in two interpreter sessions (PYTHONHASHSEED {[h for h, _, _ in lst]})"})
+    inc = [] if n >= 3 else [f"only {n} cross-session seed pairs compared"]
+    return {"violations": viol, "inconclusive": inc, "cross_session_seed_pairs": n}
